@@ -51,7 +51,11 @@ structure Script where
   exp : List String := []
   deriving Repr, Inhabited
 
-/-- defaults of `ConnectToPanelConfig` (connecttopanel.go 36-37) -/
+/-- "the configured retry period": the period a script configures, or — the property ranges over "configured and
+default retry periods" — the default the library promises its callers when none is configured: 3 s between dial
+attempts, 1 s before a reconnect.  These numbers are the monitor's own (never read from the code): that the defaults
+found in the source on this run are these is a proof obligation (`C11.constants_are_those_of_the_monitor`), so a changed
+default breaks an obligation instead of shifting the monitor. -/
 def defaultNoConnRetry : Nat := 3
 def defaultReconnRetry : Nat := 1
 def ncMs (s : Script) : Nat := (if s.nc = 0 then defaultNoConnRetry else s.nc) * 1000
@@ -60,9 +64,11 @@ def rcMs (s : Script) : Nat := (if s.rc = 0 then defaultReconnRetry else s.rc) *
 /-- timing tolerances (ms) -/
 def tolEarly : Nat := 5          -- timestamps are truncated to ms
 def tolLate : Nat := 700
+/-- "returns within a bounded time": the bound the monitor uses allows, per connection cycle the environment forces
+after the cancellation, one retry period, one probe window ("2 s" in the text of C12) and one second of winding down an
+ASCII connection after the panel's EOF.  Tied to the constants of the source by `C11.constants_are_those_of_the_monitor`. -/
 def probeMs : Nat := 2000
 def eofSleepMs : Nat := 1000
-def closeTolMs : Nat := 300      -- panel sees EOF/RST this long after the disconnect callback at the latest
 def settleMs : Nat := 150        -- a frame sent less than this before `cancel` may or may not be delivered
 
 /-- only the part of the trace up to the harness's `end` marker counts -/
@@ -254,19 +260,12 @@ def afterCancelOk (sc : Script) (tr : List TEv) : Option String :=
         let ks := (List.range (accCount tr)).map (· + 1)
         let open_ := ks.filter (fun k => !tr.any (fun x => match x.e with
           | .peof k' _ => k' = k | .pclose k' => k' = k | _ => false))
+        -- "every socket it opened closed": the panel saw the end of every connection it accepted (when, relative to
+        -- the disconnect callback, is not the property's business: the order of `conn.Close()` and `ondisconnect` is
+        -- compared with the model, Driver/Lifecycle `closeOrder`)
         match open_ with
         | k :: _ => some s!"socket_not_closed@conn{k}"
-        | [] =>
-          -- the client closes the socket BEFORE it reports the disconnect (228 before 231): the panel must see the
-          -- end of connection k no later than shortly after the k-th disconnect callback
-          let late := ks.filter (fun k =>
-            match tr.find? (fun x => match x.e with | .dis k' _ => k' = k | _ => false),
-                  tr.find? (fun x => match x.e with | .peof k' _ => k' = k | _ => false) with
-            | some d, some p => p.t > d.t + closeTolMs + lagMs
-            | _, _ => false)
-          match late with
-          | [] => none
-          | k :: _ => some s!"socket_closed_late@conn{k}"
+        | [] => none
 
 /-! ## the monitor -/
 
@@ -274,10 +273,9 @@ def checkAll (sc : Script) (tr0 : List TEv) : Option String :=
   let tr := upToEnd tr0
   let lagMs := lagOf tr
   if tr.any (fun x => x.e = .cancelfb) then some "trigger_never_happened"
-  -- the main loop plus at most the writer goroutine of the current connection (writers of torn-down connections
-  -- must have finished: otherwise every loss/reconnect cycle leaks a goroutine until cancellation)
-  -- (not when the verification hook itself is holding a writer goroutine)
-  else if sc.park = 0 ∧ tr.any (fun x => match x.e with | .gorc n => n > 2 | _ => false) then some "writer_goroutine_outlives_connection"
+  -- (how many goroutines of the library exist BEFORE the cancellation is not a clause of the property — it speaks of
+  -- "after cancellation … every internal goroutine finished" — and a writer that outlives its connection is C09's
+  -- concern; the census `gorc` is compared with the model instead: Driver/Lifecycle)
   else if !alternates (callbacks tr) true 1 then some "callbacks_do_not_alternate"
   else match cancelledDisOk tr with
   | some c => some c
